@@ -146,6 +146,32 @@ var c19ops = []c19op{
 		}
 		return sb.String()
 	}},
+	{"Encode(container of v)", func(ctx *cue.Context, v cue.Value) string {
+		// the shared value nested in Go containers: the conversion has to copy, never relabel, its vertex
+		w := ctx.Encode(map[string]any{"k1": 1, "k2": v, "k3": []any{v, 2}})
+		type wrap struct {
+			F cue.Value `json:"f"`
+		}
+		x := ctx.Encode(wrap{F: v})
+		return fmt.Sprint(w.LookupPath(cue.ParsePath("k2")).Exists(), w.LookupPath(cue.ParsePath("k3[0]")).Exists(), x.LookupPath(cue.ParsePath("f")).Exists(), v.Path().String(), w.LookupPath(cue.ParsePath("k2")).Path().String())
+	}},
+	{"FillPath(container of v)", func(ctx *cue.Context, v cue.Value) string {
+		base := ctx.CompileString("{}")
+		f := base.FillPath(cue.ParsePath("p.q"), map[string]any{"in": v, "l": []cue.Value{v}})
+		return fmt.Sprint(f.LookupPath(cue.ParsePath("p.q.in")).Exists(), f.Err() == nil, v.Path().String())
+	}},
+	{"Path", func(_ *cue.Context, v cue.Value) string {
+		var sb strings.Builder
+		sb.WriteString(v.Path().String() + "|")
+		it, err := v.Fields(cue.All())
+		if err != nil {
+			return sb.String() + errText(err)
+		}
+		for it.Next() {
+			sb.WriteString(it.Value().Path().String() + ";")
+		}
+		return sb.String()
+	}},
 	{"ctx.Encode+Unify", func(ctx *cue.Context, v cue.Value) string {
 		w := ctx.Encode(map[string]any{"a": 1, "zq": []int{1, 2}})
 		u := v.Unify(w)
@@ -318,7 +344,7 @@ func init() {
 
 func init() {
 	register("C19", "exploration", func(c *Ctx) {
-		c.Rule = "programs of the core generator (incl. erroneous ones: values with several errors are what exposes shared error lists) and corpus files; per program: 2-16 goroutines, released together with PRNG start skew, run a PRNG permutation of 17 public API call groups (LookupPath/Kind, Walk/Default, Validate ×2, Err, Syntax Final/All/default + format, MarshalJSON, yaml.Encode, Decode into map and any, Unify/FillPath deriving new values, Expr/IsClosed/Allows, Subsume/Equals, Fields iteration, ctx.Encode) on one shared value – freshly compiled (finalised under contention) or already evaluated – while every third goroutine builds the same program in its own context; each call result is reduced to a fingerprint and compared with the fingerprints of a sequential run in a different process; the shared value is fingerprinted again afterwards; fresh-label rounds make goroutines intern a never-seen label at the same time and use it. All worker processes are built with -race; reports are read from the GORACE logs, de-duplicated by stack pair. Non-trivial = distinct program whose concurrent phase made >= 30 calls."
+		c.Rule = "programs of the core generator (incl. erroneous ones: values with several errors are what exposes shared error lists) and corpus files; per program: 2-16 goroutines, released together with PRNG start skew, run a PRNG permutation of 20 public API call groups (LookupPath/Kind, Walk/Default, Validate ×2, Err, Syntax Final/All/default + format, MarshalJSON, yaml.Encode, Decode into map and any, Unify/FillPath deriving new values, Expr/IsClosed/Allows, Subsume/Equals, Fields iteration, ctx.Encode, Encode and FillPath of Go maps/slices/structs that contain the shared value, Path of the value and of its fields) on one shared value – freshly compiled (finalised under contention) or already evaluated – while every third goroutine builds the same program in its own context; each call result is reduced to a fingerprint and compared with the fingerprints of a sequential run in a different process; the shared value is fingerprinted again afterwards; fresh-label rounds make goroutines intern a never-seen label at the same time and use it. All worker processes are built with -race; reports are read from the GORACE logs, de-duplicated by stack pair. Non-trivial = distinct program whose concurrent phase made >= 30 calls."
 		c.Assume = []string{"the race detector only sees executed accesses; lock-free logic races show up only as wrong answers", "error text is part of the fingerprint of Validate/Err (it is deterministic in a sequential run)"}
 		if c.Replay != nil {
 			c.Inconclusive("replay by seed")
